@@ -71,6 +71,7 @@ const (
 	lvField
 	lvElem
 	lvGlobal
+	lvElemS // element of a slice/array of flat structs: one element heap per field (M:<T>.<f>)
 )
 
 type LVal struct {
@@ -272,6 +273,43 @@ func (p *Program) elemHeap(el types.Type) string {
 	p.registerHeap(n, ArraySort(SInt, ArraySort(SInt, s)))
 	p.noteHeapType(n, el)
 	return n
+}
+
+// flatStructFields: the fields of a struct type all of whose fields have a first-class SMT sort
+// (no nested struct, array, func ...); nil otherwise. Slices/arrays of such structs are stored
+// field-wise: one element heap M:<T>.<f> per field (struct of arrays).
+func flatStructFields(el types.Type) []*types.Var {
+	sty, ok := el.Underlying().(*types.Struct)
+	if !ok || sty.NumFields() == 0 {
+		return nil
+	}
+	var out []*types.Var
+	for i := 0; i < sty.NumFields(); i++ {
+		if sortOf(sty.Field(i).Type()) == nil {
+			return nil
+		}
+		out = append(out, sty.Field(i))
+	}
+	return out
+}
+
+func (p *Program) elemFieldHeap(el types.Type, f *types.Var) string {
+	n := "M:" + typeKey(el) + "." + f.Name() + modeSuffix(f.Type())
+	p.registerHeap(n, ArraySort(SInt, ArraySort(SInt, sortOf(f.Type()))))
+	p.noteHeapType(n, f.Type())
+	return n
+}
+
+// elemHeaps: every element heap of a slice element type (one for a scalar type, one per field for a flat struct)
+func (p *Program) elemHeaps(el types.Type) []string {
+	if sortOf(el) != nil {
+		return []string{p.elemHeap(el)}
+	}
+	var out []string
+	for _, f := range flatStructFields(el) {
+		out = append(out, p.elemFieldHeap(el, f))
+	}
+	return out
 }
 
 func (p *Program) mapHeaps(mt *types.Map) (d, v, l string) {
